@@ -10,6 +10,11 @@ Numerical support / falsifier (on the implementation, independent oracles):
   * conditional-Gaussian mean and covariance in EXACT rational arithmetic (fractions.Fraction)
     from the same binary64 inputs (small dimensions), numpy reference otherwise;
   * symmetry, PSD, posterior <= prior, information form;
+  * entry by entry against the exact rational posterior, in units of the componentwise rounding bound of the
+    Joseph form U P U^T + K R K^T (not eps |P|), and PSD relative to the exact posterior variances: cases with a
+    huge prior variance on a state measured by a very accurate sensor (P_kk / R up to 1e17, cond P <= 1e10), where
+    the exact posterior variance (~R) lies far below eps |P|;
+  * integer-typed inputs (int64 arrays) give the float result;
   * whitening: innovation == solve(L, e) for the lower Cholesky factor L (numpy) of S, and
     innovation^T innovation == e^T S^-1 e (exact rational for small dimensions);
   * independent blocks processed in every order == joint processing;
